@@ -5,8 +5,8 @@ import vrun
 from common import canon_errors
 from props import _vfamily
 
-LEVEL = "translation_validation"
-COQ_FILES = ["theories/Model/Validate.v"]
+LEVEL = "proof"
+COQ_FILES = ['theories/Model/Validate.v', 'theories/Proofs/PathProofs.v', 'theories/Properties/C12.v']
 FACT_GROUPS = ["F6", "F8"]
 ALLOWED_AXIOMS = []
 TRUSTED_BASE = _vfamily.BASE_TRUSTED
